@@ -181,7 +181,7 @@ func sameOrc(a, b []bool) bool {
 
 // concretization of a tx step into a real v3 transaction
 func (e *env) concretize(d *txDesc, height int64) (module.Transaction, *txRec, error) {
-	to, ok := e.addr[d.To]
+	to, ok := e.addrOf(d.To)
 	if !ok {
 		return nil, nil, fmt.Errorf("unknown account %q", d.To)
 	}
